@@ -17,6 +17,7 @@
 # You should have received a copy of the GNU General Public License
 # along with this program.  If not, see <http://www.gnu.org/licenses/>.
 
+import math
 from typing import Any
 from typeguard import typechecked
 
@@ -524,7 +525,8 @@ class GState:
 
         self._user_bounds.validate("feed-rate", speed)
 
-        if not isinstance(speed, int | float) or speed < 0.0:
+        if not isinstance(speed, int | float) or speed < 0.0 \
+           or not math.isfinite(speed):
             message = f"Invalid feed rate '{speed}'."
             raise ValueError(message)
 
@@ -533,6 +535,7 @@ class GState:
 
         self._user_bounds.validate("tool-power", power)
 
-        if not isinstance(power, int | float) or power < 0.0:
+        if not isinstance(power, int | float) or power < 0.0 \
+           or not math.isfinite(power):
             message = f"Invalid tool power '{power}'."
             raise ValueError(message)
